@@ -6,14 +6,16 @@ PROPS["C19"] = dict(
                     race=int(_os.environ.get("C19_RACE", "24")), race_timeout=3000,
                     require=["kind.esgz", "kind.zstd", "kind.ext", "kind.extll", "api.common", "api.perlayer", "parallel",
                              "src.none", "src.gzip", "src.zstd", "src.esgz", "fam.oci", "fam.docker", "fam.ocind",
-                             "pre.ingest", "pre.retry", "pre.interrupt", "pre.interrupt.left", "gate.parked", "res.ok", "result.blob.existed"])],
+                             "pre.ingest", "pre.retry", "pre.interrupt", "pre.interrupt.left", "gate.parked",
+                             "fin.ok", "fin.fail", "fin.multi", "fin.none", "fin.ok.repeated", "fin.ok.after.more.layers", "res.ok", "result.blob.existed"])],
     rule="images of 1..6 generated tar layers stored uncompressed / gzip / zstd / already eStargz / already zstd:chunked under OCI, OCI-nondistributable, "
          "Docker and Docker-foreign media types, with none / distribution-source / stale uncompressed labels, converted by ONE converter instance "
          "(estargz, zstdchunked, external-TOC, external-TOC lossless; common-option and per-layer-option constructors; option slice with spare capacity; "
          "chunk / min-chunk / level / prioritized files) sequentially or all layers in parallel, after an interrupted conversion left an ingest under the "
          "writer ref, after a conversion with OTHER options died mid-stream (fault-injecting content writer) leaving a prefix of its blob under the same ref, "
          "or as a retry; forced schedule for external-TOC converters (a wrapping content store parks the first layer about to store its TOC until another layer "
-         "is converted completely); thorough tier: the same harness under the Go race detector (all layers in parallel, shared option slices incl. the "
+         "is converted completely); finalize called 0..4 times per converter instance with failing (unparsable) and good target references, "
+         "repeated and interleaved with further layer conversions; thorough tier: the same harness under the Go race detector (all layers in parallel, shared option slices incl. the "
          "WithAllowPrioritizeNotFound slice as ctr-remote passes it); non-trivial = at least one layer converted; distinct = distinct (kind, inputs, observed descriptors, TOC image)",
     assumptions=[
         "SHA-256, byte length, decompression and TOC digest are abstract functions H, len, payload, tocdg of the committed blob (no injectivity assumed); "
@@ -28,7 +30,8 @@ PROPS["C19"] = dict(
                "of the committed blob; media-type table matches the compression written (finite, by cases); lossless keeps DiffID and length; the store's "
                "uncompressed label of a converted digest is the DiffID of a blob committed under it, for every initial store and schedule; the TOC image "
                "has exactly one entry per converted layer digest, mapping it (through fetcher.go's lookup) to the TOC of a conversion of that digest, for "
-               "every schedule; last writer wins on duplicate keys; order-independent on distinct keys; content writer under a reused writer ref: for every "
+               "every schedule, and so does EVERY finalize call of a schedule for the layers recorded so far (finalize is read-only, fails iff the reference "
+               "does not parse, later calls accumulate); last writer wins on duplicate keys; order-independent on distinct keys; content writer under a reused writer ref: for every "
                "leftover ingest and every history of interrupted/retried attempts with arbitrary builds, a completed attempt commits exactly its own build. The model is run against the real converters "
                "and a content/local store on generated images every run; a model-free oracle recomputes every clause from the committed blobs "
                "(sha256, size, decompress, estargz.Open + VerifyTOC + per-file digests, TOC image lookup).",
